@@ -102,6 +102,79 @@ def h12_step(S):
             S.check("due-and-expired-is-dead-lettered", neg(all_of(due, expired)))
 
 
+def h12_consume_broker(S, backend="redis"):
+    """Redis / RabbitMQ consumers: symbolic timestamp, ttl and delivery instant through the real wire encoding."""
+    import repid.data._parameters as P
+    from repid.data._key import RoutingKey
+    from repid.message import MessageCategory
+
+    ts = S.int("timestamp", Y2000, Y2050)
+    has_ttl = S.flag("has_ttl")
+    ttl = S.int("ttl", SEC, HUNDRED_Y) if has_ttl else None
+    now = S.int("now", Y2000, Y2100)
+    S.assume(now >= ts)
+    clock = PinnedClock(ts)
+    out = {}
+    S.tag("backend", backend)
+
+    async def main(loop):
+        key = RoutingKey(topic="job", queue="default", id_="m1")
+        params = P.Parameters(timestamp=S.datetime_us(ts), ttl=S.timedelta_us(ttl) if has_ttl else None)
+        if backend == "redis":
+            from fakes import redis as fr
+            srv = fr.FakeServer(clock=lambda: clock.time())
+            br = fr.mk_broker(srv)
+            await br.enqueue(key, "p", params)
+            clock.set(now)
+            cons = br.get_consumer("default", ["job"])
+            cons.POLLING_WAIT = 0
+            out["got"] = await cons.consume_or_none()
+            out["places"] = {i: sorted(p[0] for p in v) for i, v in fr.redis_places(srv).items()}
+            dead = br.get_consumer("default", ["job"], None, MessageCategory.DEAD)
+            dead.POLLING_WAIT = 0
+            out["dead_got"] = await dead.consume_or_none()
+        else:
+            from fakes import amqp as fa
+            br, ch, srv = fa.mk_broker()
+            await br.queue_declare("default")
+            await br.enqueue(key, "p", params)
+            clock.set(now)
+            cons = br.get_consumer("default", ["job"])
+            await cons.start()
+            out["got"] = await try_consume(cons, timeout=1)
+            snap = srv.snapshot()
+            out["places"] = {"m1": sorted([{"default": "waiting", "default:dead": "dead", "default:delayed": "delayed"}[q]
+                                           for q, ids in snap.items() if q != "__unacked__" and "m1" in ids] +
+                                          (["processing"] if out["got"] is not None else []))}
+            out["log"] = list(ch.log)
+            out["dropped"] = list(srv.dropped)
+            await cons.finish()
+            dead = br.get_consumer("default", ["job"], None, MessageCategory.DEAD)
+            await dead.start()
+            out["dead_got"] = await try_consume(dead, timeout=1)
+            out["dropped_after_dead_read"] = [d[0] for d in srv.dropped]
+
+    run_async(main, clock=clock)
+    names = out["places"].get("m1", [])
+    if out["got"] is not None:
+        S.cover("handed-over")
+        S.check("never-handed-over-after-expiry", (not has_ttl) or neg(now > ts + ttl))
+        S.check("held-once", names == ["processing"], info=str(names))
+    else:
+        S.cover("withheld")
+        S.check("withheld-only-when-expired", has_ttl and (now > ts + ttl))
+        S.check("expired-goes-to-dead-letter", names == ["dead"], info=str(names))
+        S.check("expired-stays-retrievable", out["dead_got"] is not None and out["dead_got"][0].id_ == "m1",
+                info=f"dead-category consumer got {out['dead_got']}; dropped: {out.get('dropped_after_dead_read')}")
+
+
+def _cb(backend):
+    def scen(S):
+        return h12_consume_broker(S, backend)
+    scen.__name__ = "h12_consume_" + backend
+    return scen
+
+
 HARNESSES = [
     Harness(
         name="H12-consume-mem", scenario=h12_consume_mem,
@@ -116,5 +189,15 @@ HARNESSES = [
         functions=["data/_parameters.py:Parameters._prepare_reschedule", "data/_parameters.py:Parameters._prepare_retry"],
         covers=["after-retry", "after-reschedule", "handed-over", "withheld", "dead-lettered"],
     ),
+]
+HARNESSES += [
+    Harness(name="H12-consume-redis", scenario=_cb("redis"),
+            bounds={"timestamp": "2000..2050", "ttl": "None or [1 s, 100 y]", "delivery instant": "any µs >= timestamp up to 2100"},
+            functions=["connections/redis/consumer.py:_RedisConsumer.consume_or_none", "connections/redis/message_broker.py:RedisMessageBroker.nack"],
+            covers=["handed-over", "withheld"], stubs=["fake Redis server; parameters cross the JSON text through sentinels"]),
+    Harness(name="H12-consume-rabbit", scenario=_cb("rabbit"),
+            bounds={"as H12-consume-redis": "through _RabbitConsumer.on_new_message on the fake AMQP channel"},
+            functions=["connections/rabbitmq/consumer.py:_RabbitConsumer.on_new_message"],
+            covers=["handed-over", "withheld"], stubs=["fake AMQP server: nack(requeue=False) dead-letters as declared by repid's queue_declare"]),
 ]
 ASSUMPTIONS = ["expiry is evaluated at the instant the consumer looks at the message (pinned symbolic clock)"]
